@@ -68,6 +68,8 @@ def cfgs(tier, seed):
         out.append(dict(base, sweeper='imex_1st_order', qd='IE', prob='dahlquist', n=2, M=[2, 1], NP=1, maxiter=3, predict=None))
         out.append(dict(base, sweeper='generic_implicit', qd='LU', prob='dahlquist', n=1, M=[3], NP=1, maxiter=3))
         out.append(dict(base, sweeper='explicit', qd='EE', prob='dahlquist', n=1, M=[2], NP=1, maxiter=5))
+        # different preconditioners for the two implicit parts
+        out.append(dict(base, sweeper='multi_implicit', qd='LU', qd2='IE', prob='dahlquist', n=1, M=[3], NP=1, maxiter=6))
         # relative residual with a left end node (the first node's residual is identically zero there)
         out.append(dict(base, sweeper='generic_implicit', qd='LU', prob='dahlquist', n=1, M=[3], NP=1, maxiter=5, quad_type='LOBATTO', residual_type='full_rel', initial_guess='zero'))
         out.append(dict(base, sweeper='generic_implicit', qd='LU', prob='dahlquist', n=1, M=[2], NP=2, maxiter=5, quad_type='RADAU-LEFT', residual_type='full_rel', jac=False))
@@ -124,7 +126,7 @@ def run_task(rep, task):
 def cname(cfg):
     return (f"{cfg['sweeper']}/{cfg['qd']}/{cfg.get('quad_type', 'RADAU-RIGHT')}/{cfg['prob']}{cfg['n']}/M{'-'.join(map(str, cfg['M']))}/NP{cfg['NP']}x{cfg.get('blocks', 1)}/K{cfg['maxiter']}/"
             f"{cfg.get('predict')}/jac{int(cfg.get('jac', True))}/{cfg.get('residual_type', 'full_abs')}/ns{cfg.get('nsweeps', 1)}/f{int(bool(cfg.get('finter')))}/{cfg.get('initial_guess', 'spread')}"
-            + ('/atd' if cfg.get('all_to_done') else '') + ('/cu' if cfg.get('cu') else '') + (f"/etol{cfg['e_tol']}" if cfg.get('e_tol') is not None else '') + ('/exthook' if cfg.get('exthook') else ''))
+            + ('/atd' if cfg.get('all_to_done') else '') + ('/cu' if cfg.get('cu') else '') + (f"/etol{cfg['e_tol']}" if cfg.get('e_tol') is not None else '') + ('/exthook' if cfg.get('exthook') else '') + (f"/Q2{cfg['qd2']}" if cfg.get('qd2') else ''))
 
 
 def coll_constant(Q, A, dt, weights=None):
